@@ -6,7 +6,7 @@
    dispatch, so arity/type errors are still modelled for them. *)
 From Coq Require Import ZArith List Bool.
 From Coq Require Import Floats.SpecFloat.
-From Rscel Require Import Base.Prims Base.F64 Base.Text Base.FloatText Model.Value Model.Ops Model.Dispatch.
+From Rscel Require Import Base.Prims Base.F64 Base.Text Base.FloatText Model.Strings Model.Value Model.Ops Model.Dispatch.
 Import ListNotations.
 Import Coq.Strings.String.StringSyntax.
 Open Scope Z_scope.
@@ -310,14 +310,26 @@ Definition default_arms (now : option Z) (name : bytes) : option (list arm) :=
   else if bytes_eqb name #"matchCaptures" then Some [arm_this1 PString PString (fun _ _ => unmod)]
   else if bytes_eqb name #"matchReplaceOnce" then Some [arm_this2 PString PString PString (fun _ _ _ => unmod)]
   else if bytes_eqb name #"matchReplace" then Some [arm_this2 PString PString PString (fun _ _ _ => unmod)]
-  else if bytes_eqb name #"remove" then Some [arm_this1 PString PString (fun _ _ => unmod)]
-  else if bytes_eqb name #"replace" then Some [arm_this2 PString PString PString (fun _ _ _ => unmod)]
-  else if bytes_eqb name #"rsplit" then Some [arm_this1 PString PString (fun _ _ => unmod)]
-  else if bytes_eqb name #"split" then Some [arm_this1 PString PString (fun _ _ => unmod)]
-  else if bytes_eqb name #"splitAt" then Some [arm_this1 PString PInt (fun _ _ => unmod)]
-  else if bytes_eqb name #"trimStartMatches" then Some [arm_this1 PString PString (fun _ _ => unmod)]
-  else if bytes_eqb name #"trimEndMatches" then Some [arm_this1 PString PString (fun _ _ => unmod)]
-  else if bytes_eqb name #"splitWhiteSpace" then Some [arm_this PString (fun _ => unmod)]
+  else if bytes_eqb name #"remove" then Some [arm_this1 PString PString (str2 (fun s p =>
+      match remove_str s p with Some r => ok (VString r) | None => unmod end))]
+  else if bytes_eqb name #"replace" then Some [arm_this2 PString PString PString (fun a b c =>
+      match a, b, c with
+      | VString s, VString f, VString t => match replace_str s f t with Some r => ok (VString r) | None => unmod end
+      | _, _, _ => bad end)]
+  else if bytes_eqb name #"rsplit" then Some [arm_this1 PString PString (str2 (fun s p =>
+      match rsplit_str s p with Some l => ok (VList (map VString l)) | None => unmod end))]
+  else if bytes_eqb name #"split" then Some [arm_this1 PString PString (str2 (fun s p =>
+      match split_str s p with Some l => ok (VList (map VString l)) | None => unmod end))]
+  else if bytes_eqb name #"splitAt" then Some [arm_this1 PString PInt (fun a b =>
+      match a, b with
+      | VString s, VInt i => match split_at_str s i with
+                             | Some (l, r) => ok (VList [VString l; VString r])
+                             | None => verr EValue end
+      | _, _ => bad end)]
+  else if bytes_eqb name #"trimStartMatches" then Some [arm_this1 PString PString (str2 (fun s p => ok (VString (trim_start_matches s p))))]
+  else if bytes_eqb name #"trimEndMatches" then Some [arm_this1 PString PString (str2 (fun s p => ok (VString (trim_end_matches s p))))]
+  else if bytes_eqb name #"splitWhiteSpace" then Some [arm_this PString (fun a =>
+      match a with VString s => match split_ws s with Some l => ok (VList (map VString l)) | None => unmod end | _ => bad end)]
   else if bytes_eqb name #"abs" then Some [
     arm1 PInt (fun a => match a with VInt z => if z =? i64_min then verr EValue else ok (VInt (Z.abs z)) | _ => bad end);
     arm1 PUInt (fun a => ok a);
@@ -397,9 +409,12 @@ Definition call_default (now : option Z) (name : bytes) (this : value) (args : l
       Some (string_func (fun s => match lower_ascii s with Some r => ok (VString r) | None => unmod end) this args)
     else if bytes_eqb name #"toUpper" then
       Some (string_func (fun s => match upper_ascii s with Some r => ok (VString r) | None => unmod end) this args)
-    else if bytes_eqb name #"trim" then Some (string_func (fun _ => unmod) this args)
-    else if bytes_eqb name #"trimStart" then Some (string_func (fun _ => unmod) this args)
-    else if bytes_eqb name #"trimEnd" then Some (string_func (fun _ => unmod) this args)
+    else if bytes_eqb name #"trim" then
+      Some (string_func (fun s => match trim_ws s with Some r => ok (VString r) | None => unmod end) this args)
+    else if bytes_eqb name #"trimStart" then
+      Some (string_func (fun s => match trim_start_ws s with Some r => ok (VString r) | None => unmod end) this args)
+    else if bytes_eqb name #"trimEnd" then
+      Some (string_func (fun s => match trim_end_ws s with Some r => ok (VString r) | None => unmod end) this args)
     else if bytes_eqb name #"min" then Some (min_impl args)
     else if bytes_eqb name #"max" then Some (max_impl args)
     else if bytes_eqb name #"now" then Some (match args with [] => read_clock now | _ => verr EArgument end)
